@@ -34,9 +34,40 @@ class Variant:
         return [(self.file, self.old, self.new, self.count)] + [(f, o, n, 1) for f, o, n in self.more]
 
 
+class PatchVariant(Variant):
+    """A stored unified diff (a seeded breaking change or a behaviour-preserving refactoring made by an
+    independent agent) applied to the scratch copy with patch(1)."""
+
+    def __init__(self, prop, name, patch, expect, rule=None):
+        Variant.__init__(self, prop, name, None, None, None, expect=expect, rule=rule)
+        self.patch = patch
+
+    def edits(self):
+        return []
+
+
+def stored_patch_variants() -> List['Variant']:
+    out: List[Variant] = []
+    sd = os.path.join(VERIF, 'seeded')
+    for sid in sorted(os.listdir(sd)) if os.path.isdir(sd) else []:
+        try:
+            meta = json.load(open(os.path.join(sd, sid, 'meta.json')))
+        except (OSError, ValueError):
+            continue
+        for prop in sorted(meta.get('checks_that_fire', {})):
+            out.append(PatchVariant(prop, 'seeded change %s' % sid, os.path.join(sd, sid, 'patch.diff'), 'fire'))
+    rd = os.path.join(VERIF, 'refactors')
+    for rid in sorted(os.listdir(rd)) if os.path.isdir(rd) else []:
+        pf = os.path.join(rd, rid, 'patch.diff')
+        if os.path.exists(pf):
+            for i in range(1, 21):
+                out.append(PatchVariant('C%02d' % i, 'silent: refactoring %s' % rid, pf, 'silent'))
+    return out
+
+
 def load_variants() -> List[Variant]:
     from . import selftest_variants
-    return selftest_variants.VARIANTS
+    return list(selftest_variants.VARIANTS) + stored_patch_variants()
 
 
 def run_variant(v: Variant, keep=False) -> dict:
@@ -54,6 +85,11 @@ def run_variant(v: Variant, keep=False) -> dict:
     tmp = tempfile.mkdtemp(prefix='pndst_')
     try:
         shutil.copytree(src, os.path.join(tmp, PKG))
+        if getattr(v, 'patch', None):
+            pr = subprocess.run(['patch', '-p1', '-s', '--no-backup-if-mismatch', '-i', v.patch], cwd=tmp, capture_output=True, text=True)
+            if pr.returncode != 0:
+                return {'variant': v.name, 'property': v.prop, 'status': 'skipped',
+                        'why': 'stored patch no longer applies (tree was edited)'}
         for fn, text in texts.items():
             with open(os.path.join(tmp, PKG, fn), 'w') as f:
                 f.write(text)
